@@ -733,6 +733,10 @@ void run_model(const std::string & tn, const Alphabet<M> & A, bool do_vv = true,
     const double scale = std::max({1.0, vec_max(a), Mod<M>::mag(m)});
     const bool inband  = PI - tr.rot <= T::band;
     c.judge(inband ? "rminus(rplus(m,a),m)=a [pi band]" : "rminus(rplus(m,a),m)=a", vec_err(r, a) / scale, inband ? T::Tpi : T::T);
+    // a step that is small as a whole must come back as itself, not as zero: error relative to |a|, above the floor of what the
+    // stored coefficients of m (+) a can resolve (64 eps of the forward-error scale; observed worst on the thorough alphabet: 0)
+    if (const double na = vec_max(a); na > 0 && na < 1 && !inband)
+      c.judge("rminus(rplus(m,a),m)=a relative to |a|, |a|<1", std::max(0.0, vec_err(r, a) - 64 * T::eps * std::max(1.0, Mod<M>::mag(m))) / na, T::T);
     x.vt(c, m, a, p, r, tr.rot);
   });
 
@@ -1025,6 +1029,10 @@ void run_any(const std::string & tn, const Alphabet<M> & A, bool do_vv = true)
     const double scale = std::max({1.0, vec_max(a), Mod<M>::mag(m)});
     const bool inband  = PI - tr.rot <= T::band;
     c.judge(inband ? "rminus(rplus(m,a),m)=a [pi band]" : "rminus(rplus(m,a),m)=a", vec_err(r, a) / scale, inband ? T::Tpi : T::T);
+    // a step that is small as a whole must come back as itself, not as zero: error relative to |a|, above the floor of what the
+    // stored coefficients of m (+) a can resolve (64 eps of the forward-error scale; observed worst on the thorough alphabet: 0)
+    if (const double na = vec_max(a); na > 0 && na < 1 && !inband)
+      c.judge("rminus(rplus(m,a),m)=a relative to |a|, |a|<1", std::max(0.0, vec_err(r, a) - 64 * T::eps * std::max(1.0, Mod<M>::mag(m))) / na, T::T);
     // dispatch reference: the wrapped type's own operations
     const M p = smooth::rplus(m, a);
     c.judge("any: rplus = rplus of the wrapped value", Mod<M>::dist(ap.template get<M>(), p) / std::max(1.0, Mod<M>::mag(p)), T::Tdisp);
